@@ -30,6 +30,8 @@ type Link struct {
 	// HoldClientWrites: the client's reliable writes block (back pressure) until it is reset
 	HoldClientWrites bool
 	WriteResetErr    error
+	// FailedClientWrites counts the client's reliable writes that failed on the severed link
+	FailedClientWrites int
 	Params     transport.NegotiationParams
 }
 
@@ -102,6 +104,9 @@ func (e *End) Write(b []byte) error {
 		return transport.ErrAlreadyClosed
 	}
 	if e.wr.broken || e.wr.eof {
+		if e == e.l.Client {
+			e.l.FailedClientWrites++
+		}
 		if e.l.WriteResetErr != nil && e == e.l.Client {
 			return fmt.Errorf("sim: link #%d reset: %w", e.l.Idx, e.l.WriteResetErr)
 		}
